@@ -146,6 +146,8 @@ def resolve (H : HashFam) (orc : Oracles) (ns did : String) : Option Json :=
         match Parser.parse H defaultCfg orc ns size (some req) with
         | some op =>
           if suffix ≠ op.uniqueSuffix then none
+          -- no further segments between namespace and suffix: that would be a DID of another namespace (D49)
+          else if did' ≠ ns ++ ":" ++ suffix then none
           else createResponse H orc suffix req size (unpublishedInfo ns suffix initial)
         | none => none
     | _ => none
